@@ -1,7 +1,7 @@
 (* Gate model of the control endpoint: crates/trust-runtime/src/control.rs
    (handle_request_value: parse -> resolve_request_role -> required role -> debug gate ->
    dispatch) over the tables translated from the source (gen/C18Tables.v). *)
-From Coq Require Import String List Bool Arith.
+From Coq Require Import String Ascii List Bool Arith.
 From TP Require Import gen.C18Tables.
 Import ListNotations.
 Open Scope string_scope.
@@ -57,3 +57,19 @@ Definition handle (token_set debug_on : bool) (c : cred) (k : string) (has_param
 Definition engineer_rank : nat := 2.
 Definition claimed_role (requested : option nat) : nat :=
   match requested with None => 1 | Some r => Nat.min r engineer_rank end.
+
+(* config.set: the gate (required_role_for_config_set) looks for the admin-only keys by their exact spelling; the handler
+   (handle_config_set) matches the keys of the params object by exact spelling too and answers "unknown config key" - changing
+   nothing - for any other string.  [norm] = a handler that trims and lower-cases the keys before matching (not the code). *)
+Definition lower_ascii (a : ascii) : ascii :=
+  let n := nat_of_ascii a in if Nat.leb 65 n && Nat.leb n 90 then ascii_of_nat (n + 32) else a.
+Definition is_space (a : ascii) : bool := let n := nat_of_ascii a in Nat.eqb n 32 || (Nat.leb 9 n && Nat.leb n 13).
+Fixpoint lower (s : string) : string := match s with EmptyString => EmptyString | String a r => String (lower_ascii a) (lower r) end.
+Fixpoint ltrim (s : string) : string := match s with String a r => if is_space a then ltrim r else s | EmptyString => EmptyString end.
+Fixpoint rev_str (s acc : string) : string := match s with EmptyString => acc | String a r => rev_str r (String a acc) end.
+Definition normalize (s : string) : string := lower (rev_str (ltrim (rev_str (ltrim s) EmptyString)) EmptyString).
+Definition gate_admin_key (key : string) : bool := mem key config_admin_keys.
+Definition handler_admin_key (norm : bool) (key : string) : bool := mem (if norm then normalize key else key) config_admin_keys.
+(* an admin-only setting is changed by  config.set {key: v}  only if the request is dispatched and the handler takes the key for one *)
+Definition admin_effect (norm ts dbg : bool) (c : cred) (key : string) : bool :=
+  match handle ts dbg c "config.set" true (gate_admin_key key) with Dispatched => handler_admin_key norm key | _ => false end.
